@@ -73,6 +73,7 @@ type Zone struct {
 	NXUnknown bool              // names without any data answer NXDOMAIN instead of NOERROR/no data
 	Compress  bool              // use RFC 1035 name compression in responses
 	Order     int               // order of the answer section: 0 CNAME chain first (as resolved), 1 reversed, 2 CNAME records last, 3 rotated by one (the order of RRs in a section carries no meaning)
+	Chunked   bool              // responses are sent without a Content-Length header (chunked transfer coding), as HTTP servers do for streamed or larger bodies
 	NegSOA    *NegSOA           // when set: a NOERROR response without answers carries this SOA in its authority section (RFC 2308)
 }
 
